@@ -757,6 +757,9 @@ def build_jobs(q):
         if n >= 2:
             tree(("sample", "randfunc", n, 2), 0)
     tree(("sample", "module", 3, 2), 0)
+    # populations with equal elements (1 == 1.0 == True): selections are made by position
+    for n, k in ((2, 2), (3, 2), (4, 2), (5, 2)):
+        tree(("sample_t", "randfunc", n, k, "eqval"), 0)
     cap = (1 << 17) if q else (1 << 21)
     for n in range(2, 5):
         bits = [i.bit_length() for i in range(n, 1, -1)]
